@@ -134,6 +134,12 @@ Proof.
   reflexivity.
 Qed.
 
+Lemma listen_delay_c s d c : listen_delay CB s d c = (Ok tt, d, c).
+Proof.
+  unfold listen_delay, bind, now, sleep, ret. cbn [b_now b_sleep CB].
+  destruct (_ <? _)%N; reflexivity.
+Qed.
+
 Lemma set_ce_c v d c : set_ce CB v d c = (Ok tt, d, cset_ce c v).
 Proof. reflexivity. Qed.
 
@@ -157,10 +163,13 @@ Ltac msolve side :=
   | |- put _ _ _ = _ => reflexivity
   | |- ret _ _ _ = _ => reflexivity
   | |- set_ce _ _ _ _ = _ => reflexivity
+  | |- sleep _ _ _ _ = _ => reflexivity
+  | |- now _ _ _ = _ => reflexivity
+  | |- listen_delay _ _ _ _ = _ => apply listen_delay_c
   | |- reg_write _ _ _ _ _ = _ => apply reg_write_c; side
   | |- reg_write_bytes _ _ _ _ _ = _ => apply reg_write_bytes_c; side
   | |- reg_read _ _ _ _ = _ => apply reg_read_c; side
   | |- command _ _ _ _ = _ => apply command_c; side
   end.
 
-Ltac mstep side := first [ rewrite bind_assoc | erewrite bind_ok; [ | msolve side ]; cbv beta ].
+Ltac mstep side := rewrite ?bind_assoc; erewrite bind_ok; [ | msolve side ]; cbv beta.
